@@ -708,6 +708,10 @@ pub fn cases_crash(tier: &str, rng: &mut Rng, stats: &mut Stats, out: &mut Out) 
             out.case(&Case::Read { target: "generic".into(), shp: data, shx: if rng.chance(1, 2) { Some(xdata) } else { None } });
         }
     }
+    for (n_old, n_new) in [(40usize, 3usize), (7, 7), (12, 0)] {
+        let id = out.oracle_only_id();
+        out.verdict(&id, &format!("scenario path-overwrite {} {}", n_old, n_new), crate_dbf::oracle_path_overwrite(n_old, n_new));
+    }
     // torn length fields on files large enough for a carry (>= 52 index entries, >= 15 point records)
     for (n, f) in if tier == "thorough" { vec![(52usize, 3usize), (60, 50), (64, 1), (70, 64), (120, 60), (16, 14), (20, 3)] } else { vec![(60, 50), (16, 14)] } {
         stats.hit("crash.torn-length");
@@ -1225,7 +1229,7 @@ pub fn macro_cases(out: &mut Out) {
 }
 
 // dbase and geo-types producers live in their own files
-pub use crate_dbf::{cases_dbf, cases_dbf_c10, cases_pairs_c15, oracle_c08, v_dbfhist, PairOp};
+pub use crate_dbf::{cases_dbf, cases_dbf_c10, cases_pairs_c15, oracle_c08, oracle_path_overwrite, v_dbfhist, v_prhist, PairOp};
 
 /// replay of oracle-only scenarios (`scenario <name> <args>` lines in replay files)
 pub fn oracle_scenario(prop: &str, a: &[String]) -> Option<Verdict> {
